@@ -406,6 +406,52 @@ def mon_c07(h, obs):
             continue      # C13's recorded findings (corpus witnesses of the ledger engine are replayed here too); not about reverts
         x.fp = "C07/ledger-revert/" + tail
         out.append(x)
+    # a transaction that was reverted as a whole creates no account: an address the ledger never saw before (no read, no write
+    # since `open`) that was written only inside a reverted snapshot is not among the accounts a flush reports as changed.
+    # (An account that WAS read before keeps an empty dirty copy after such a revert: the recorded finding
+    # C10/…/reverted-write/account-field — not repeated here.)
+    import re as _re
+    seen, kept, in_snap, snap_writes, pending = set(), set(), False, set(), set()
+    for op, o in zip(h.ops, obs):
+        ws = op.split()
+        k0 = ws[0]
+        if k0 in ("open", "reopen"):
+            # after a reopen accounts of the committed state exist: the rule only speaks about never-seen addresses
+            seen = None if k0 == "reopen" else set()
+            kept, in_snap, snap_writes, pending = set(), False, set(), set()
+            continue
+        if seen is None:
+            continue
+        if k0 == "snap":
+            in_snap = True
+        elif k0 == "revert":
+            if ws[1:] == ["0"]:
+                # everything since the transaction's first snapshot is undone
+                pending |= {a for a in snap_writes if a not in seen and a not in kept}
+            else:
+                seen |= snap_writes       # a partial revert: no claim about these
+            in_snap, snap_writes = (False, set()) if ws[1:] == ["0"] else (in_snap, set())
+        elif k0 == "finalise":
+            seen |= snap_writes
+            kept |= snap_writes
+            in_snap, snap_writes = False, set()
+        elif k0 in ("set", "add", "del", "setbal", "addbal", "setnonce", "setcode"):
+            if in_snap:
+                snap_writes.add(ws[1])
+            else:
+                seen.add(ws[1])
+                kept.add(ws[1])
+        elif k0 in ("get", "bal", "nonce", "code", "codehash", "query") and len(ws) > 1:
+            seen.add(ws[1])
+        elif k0 == "flush":
+            m = _re.search(r"dirty=\[([^\]]*)\]", o or "")
+            if m:
+                dirty = set(m.group(1).split())
+                bad = sorted(a for a in pending if a in dirty and a not in kept and a not in seen)
+                if bad:
+                    out.append(Hit("C07/ledger-revert/reverted-transaction-created-an-account",
+                                   f"the flush reports {bad} as changed: addresses written only inside a transaction that was reverted as a whole", detail=op))
+            pending, kept = set(), set()
     return out
 
 
